@@ -206,6 +206,21 @@ class Zoo:
         self.layer.update()
         return {k: v.clone() for k, v in outs.items()}
 
+    def clear_all(self):
+        """return the dynamic state to 'before the first observation' while keeping shapes (a legal prior state of a target,
+        and a legal event of a run)"""
+        if self.name == "reducers":
+            for r in self.holder.children():
+                r.clear(keepshape=True)
+        elif self.name != "classifier":
+            self.trainer.clear(keepshape=True)
+            if getattr(self, "recurrent", False):
+                # keep the lazily created feedback buffer: a None buffer is not part of a state dict (the property's proviso
+                # about lazily shaped state applies to it)
+                self.layer.clear(clear_feedback=False)
+            else:
+                self.layer.clear()
+
     def observe(self):
         out = {}
         for mn, m in self.mods.items():
@@ -241,14 +256,22 @@ def eq(a, b):
     return bool(torch.equal(a, b)) or bool(torch.allclose(a.float(), b.float(), rtol=0, atol=0, equal_nan=True))
 
 
-def shard(name, inplace):
+def shard(name, inplace, clear_at=None):
+    """clear_at: the run itself contains a keep-shape clear() right before step `clear_at` (so a checkpoint can be taken
+    immediately after a clear)"""
     tally = Tally()
-    cfg = {"model": name, "inplace": inplace, "T": T}
+    cfg = {"model": name, "inplace": inplace, "T": T, "run_clears_before_step": clear_at}
+
+    def advance(z, t):
+        if clear_at is not None and t == clear_at:
+            z.clear_all()
+        return z.step(t)
+
     try:
         ref = Zoo(name, inplace)
         ref_out, ref_obs = [], []
         for t in range(T):
-            ref_out.append(ref.step(t))
+            ref_out.append(advance(ref, t))
             ref_obs.append(ref.observe())
     except Exception as ex:
         tally.violation(f"exception:uninterrupted:{name}:{type(ex).__name__}", cfg, repr(ex))
@@ -256,25 +279,32 @@ def shard(name, inplace):
     spikes = sum(int(v.sum()) for o in ref_out for v in o.values() if v.dtype == torch.bool)
     tally.mark("activity", (name, inplace, spikes > 0))
     for k in range(0, T + 1):
-        targets = [("fresh", 0)] if k == 0 else [("warmed", 1), ("ran", 3)]
+        targets = [("fresh", 0)] if k == 0 else [("warmed", 1), ("ran", 3), ("cleared", 2)]
+        if clear_at is not None and k == clear_at and k >= 1:
+            pass  # the checkpoint is taken right after step k-1; the clear belongs to step k and happens in the continuation
         for tkind, j in targets:
             case = {**cfg, "checkpoint_at": k, "target": tkind, "target_steps_on_other_data": j}
             tally.add("evaluations")
             try:
                 src = Zoo(name, inplace)
                 for t in range(k):
-                    src.step(t)
+                    advance(src, t)
+                after_clear = clear_at is not None and k == clear_at
+                if after_clear:
+                    src.clear_all()  # checkpoint immediately after the clear
                 blob = src.save()
                 tgt = Zoo(name, inplace)
                 for t in range(j):
                     tgt.step(t, salt=3)  # other data
+                if tkind == "cleared":
+                    tgt.clear_all()
                 tgt.load(blob)
             except Exception as ex:
                 tally.violation(f"exception:save-load:{name}:{tkind}:{type(ex).__name__}", case, f"{type(ex).__name__}: {str(ex)[:300]}", None, repr(ex)[:500])
                 continue
             ok = True
             # state right after loading equals the state of the source at k
-            if k >= 1:
+            if k >= 1 and not after_clear:
                 obs = tgt.observe()
                 for key, v in ref_obs[k - 1].items():
                     if key in obs and not eq(obs[key], v):
@@ -285,7 +315,7 @@ def shard(name, inplace):
                 if not ok:
                     break
                 try:
-                    out = tgt.step(t)
+                    out = tgt.step(t) if (after_clear and t == k) else advance(tgt, t)
                     obs = tgt.observe()
                 except Exception as ex:
                     tally.violation(f"exception:continue:{name}:{type(ex).__name__}", {**case, "step": t}, f"{type(ex).__name__}: {str(ex)[:300]}")
@@ -321,6 +351,8 @@ def run(rep):
             if name == "classifier" and inplace:
                 continue
             jobs.append((shard, (name, inplace)))
+            if name != "classifier":
+                jobs.append((shard, (name, inplace, 4)))
     tally = run_shards(jobs, seed=rep.seed)
     rep.tally.merge(tally)
     rep.assumptions += [
@@ -334,13 +366,14 @@ def run(rep):
         "models": len(jobs),
         "fault_points_per_model": T + 1,
         "exhaustive": True,
-        "rule": "every checkpoint index k in [0,T] x target state {fresh/warmed, run 3 steps on other data} x model zoo x inplace; non-trivial = distinct "
+        "rule": "every checkpoint index k in [0,T] x target state {fresh/warmed, run 3 steps on other data, run 2 steps then cleared keeping shapes} x "
+                "model zoo x inplace x {plain run, run with a keep-shape clear before step 4 (checkpoint right after the clear included)}; non-trivial = distinct "
                 "(model, inplace, k, target) whose continuation was compared with the uninterrupted run",
     }
     cov["models_with_spiking_activity"] = len([a for a in tally.sets.get("activity", ()) if a[2]])
-    return rep.finish(cov, floors={"evaluations": 150, "distinct_nontrivial": 100, "models_with_spiking_activity": 10})
+    return rep.finish(cov, floors={"evaluations": 300, "distinct_nontrivial": 100, "models_with_spiking_activity": 10})
 
 
 def replay(case):
-    t = shard(case["model"], case["inplace"])
+    t = shard(case["model"], case["inplace"], case.get("run_clears_before_step"))
     return {"violations": [[v["key"], v["message"]] for v in t.violations if v["case"].get("checkpoint_at") == case.get("checkpoint_at")]}
